@@ -233,6 +233,46 @@ fn new_slot() -> Slot {
     }
 }
 
+/// A thread of the child that sleeps inside a *socket* system call (read, write, accept, connect, send*, recv*) is
+/// something no execution may contain: every socket the runtime hands out is non-blocking, a call that finds nothing
+/// to do returns EAGAIN and the caller is suspended by the runtime (and thereby by the engine). If a thread is found
+/// sleeping in the same socket call (same arguments, same stack pointer) by three looks in a row, 300 ms of real time
+/// apart, the call is a blocking one: the worker is lost to every coroutine that depends on it. Reported as a
+/// violation (`blocked_in_kernel`) instead of waiting for the child's 60 s alarm, which is a machinery fault. Real
+/// time only decides *when* the look happens; a non-blocking call never sleeps interruptibly, so load cannot produce
+/// the pattern.
+fn kernel_block_watchdog(e: &'static Engine) {
+    const NRS: &[(i64, &str)] = &[(0, "read"), (1, "write"), (19, "readv"), (20, "writev"), (42, "connect"), (43, "accept"), (44, "sendto"), (45, "recvfrom"), (46, "sendmsg"), (47, "recvmsg"), (288, "accept4")];
+    let mut seen: std::collections::HashMap<i32, (String, u32)> = std::collections::HashMap::new();
+    loop {
+        std::thread::sleep(std::time::Duration::from_millis(300));
+        let mut cur = std::collections::HashMap::new();
+        let Ok(rd) = std::fs::read_dir("/proc/self/task") else { continue };
+        for ent in rd.flatten() {
+            let Some(tid) = ent.file_name().to_str().and_then(|s| s.parse::<i32>().ok()) else { continue };
+            let Ok(line) = std::fs::read_to_string(format!("/proc/self/task/{}/syscall", tid)) else { continue };
+            let mut it = line.split_whitespace();
+            let Some(nr) = it.next().and_then(|s| s.parse::<i64>().ok()) else { continue };
+            let Some(name) = NRS.iter().find(|x| x.0 == nr).map(|x| x.1) else { continue };
+            let Some(fd) = it.next().and_then(|s| i64::from_str_radix(s.trim_start_matches("0x"), 16).ok()) else { continue };
+            let is_socket = std::fs::read_link(format!("/proc/self/fd/{}", fd)).map(|p| p.to_string_lossy().starts_with("socket:")).unwrap_or(false);
+            let sleeping = std::fs::read_to_string(format!("/proc/self/task/{}/stat", tid)).map(|s| s.rsplit_once(") ").map(|x| x.1.starts_with('S')).unwrap_or(false)).unwrap_or(false);
+            if !is_socket || !sleeping {
+                continue;
+            }
+            let n = match seen.get(&tid) {
+                Some((l, n)) if *l == line => n + 1,
+                _ => 1,
+            };
+            if n >= 3 {
+                e.finish(ST_FAIL, "blocked_in_kernel", &format!("a thread sleeps inside the system call {}(fd {}) on a socket (seen by three looks 300 ms apart): the call blocked its thread in the kernel instead of suspending the caller; whoever depends on that worker stays suspended", name, fd));
+            }
+            cur.insert(tid, (line, n));
+        }
+        seen = cur;
+    }
+}
+
 /// runs in the forked child, never returns
 pub fn child_main(sc: &Scenario, shared: *mut Shared, sched: &Sched) -> ! {
     unsafe {
@@ -243,6 +283,7 @@ pub fn child_main(sc: &Scenario, shared: *mut Shared, sched: &Sched) -> ! {
         libc::setrlimit(libc::RLIMIT_CORE, &rl);
     }
     let e = Engine::new(shared, sched.devs.clone(), sched.expect_fp, sc.cfg.clone());
+    std::thread::spawn(move || kernel_block_watchdog(e));
     alloc::set_mode(sc.alloc);
     let run = sc.run.clone();
     let r = std::panic::catch_unwind(std::panic::AssertUnwindSafe(|| run(e)));
